@@ -37,7 +37,7 @@ NODE_KEYS = ["head", "demand", "pressure", "leak_demand"]
 LINK_KEYS = ["flowrate", "velocity", "status", "setting"]
 
 
-ZERO_SAFE = [False]  # set by the translator: NewtonSolver.solve binds outer_iter / iter_bt before the loops
+ZERO_SAFE = [True]  # since fix 14495b3c NewtonSolver.solve binds outer_iter / iter_bt before the loops (zero limits are generated)
 SCIPY_NONLIN = ["diagbroyden", "broyden1", "newton_krylov", "anderson"]
 LOW_KINDS = ["sp-valueerror", "sp-fpe", "sp-shape", "sp-noconv"]
 PREFIX_DEV = [0.0]  # largest relative deviation seen between a failing run's rows and its reference run's rows
@@ -341,8 +341,10 @@ def observe_run(spec, plan=None, backup=None, conv_err=False, max_calls=None, ke
             name = solver.__name__
 
             def faulty(F, x0, *a, **k):
-                if name == "fsolve":  # only `ier` is a documented failure report of fsolve
+                if name == "fsolve" and kind == "sp-noconv":
                     return (x0, {}, 5, "The iteration is not making good progress")
+                if name == "fsolve" and kind == "sp-shape":
+                    return (np.zeros(len(x0) + 3), {}, 1, "The solution converged.")
                 if kind == "sp-valueerror":
                     raise ValueError("array must not contain infs or NaNs")
                 if kind == "sp-fpe":
@@ -867,11 +869,6 @@ def newton_shape_from_source(path):
                 defaults[_N_DEFAULTS[key]] = ast.literal_eval(st.body[0].value)
     if set(defaults) != set(_N_DEFAULTS.values()):
         raise vlib.BrokenTie("NewtonSolver.__init__ defaults not recognised: %s" % sorted(defaults))
-    # variant: are the loop variables bound before the loops (fix C16-newton-zero-limits)?
-    io, ib = ".act .initOuterIter" in body, ".act .initIterBt" in body
-    if io != ib:
-        raise vlib.BrokenTie("only one of `outer_iter = 0` / `iter_bt = -1` is present in NewtonSolver.solve")
-    defaults["zeroSafe"] = io
     return defaults, body
 
 
@@ -902,7 +899,21 @@ def helper_shape_from_source(path):
     b2 = br.orelse[0]
     want2 = ["x, infodict, ier, mesg = solver(model.evaluate_residuals, model.get_x(), **solver_options)",
              "if ier != 1:\n    sol = (SolverStatus.error, mesg, None)\nelse:\n    model.load_var_values_from_x(x)\n    sol = (SolverStatus.converged, mesg, None)"]
-    sh["fsolveByIer"] = ast.unparse(b2.test) == "solver is scipy.optimize.fsolve" and same(b2.body, want2)
+    b2body, sh["fsolveCatch"] = b2.body, "none"
+    if len(b2body) == 1 and isinstance(b2body[0], ast.Try) and len(b2body[0].handlers) == 1 and not b2body[0].orelse and not b2body[0].finalbody:
+        h2 = b2body[0].handlers[0]
+        hb2 = [ast.unparse(x) for x in h2.body]
+        if len(hb2) != 1 or not hb2[0].startswith("sol = (SolverStatus.error, "):
+            raise vlib.BrokenTie("_solver_helper: the except handler of the fsolve branch does not set SolverStatus.error: %s" % hb2)
+        if h2.type is None:
+            sh["fsolveCatch"] = "(some .all)"
+        else:
+            ts2 = h2.type.elts if isinstance(h2.type, ast.Tuple) else [h2.type]
+            cls2 = [ast.unparse(x).split(".")[-1] for x in ts2]
+            sh["fsolveCatch"] = "(some .all)" if ("Exception" in cls2 or "BaseException" in cls2) else \
+                "(some (.only [%s]))" % ", ".join('"%s"' % c for c in cls2)
+        b2body = b2body[0].body
+    sh["fsolveByIer"] = ast.unparse(b2.test) == "solver is scipy.optimize.fsolve" and same(b2body, want2)
     if len(b2.orelse) != 1 or not isinstance(b2.orelse[0], ast.If):
         raise vlib.BrokenTie("_solver_helper: third branch missing")
     b3 = b2.orelse[0]
@@ -951,15 +962,14 @@ def gen_newton_lean(defaults, body, hshape):
         "",
         "/-- the defaults of `NewtonSolver.__init__` (doubles as exact rationals); `c1` = the literal 0.0001 of the decrease test -/",
         "def defaults : Opts :=",
-        "  { maxiter := %d, tol := %s, rho := %s, btMaxiter := %d, bt := %s, btStartIter := %d, c1 := %s, zeroSafe := %s }"
+        "  { maxiter := %d, tol := %s, rho := %s, btMaxiter := %d, bt := %s, btStartIter := %d, c1 := %s }"
         % (defaults["maxiter"], vlib.lean_rat(Fraction(float(defaults["tol"]))), vlib.lean_rat(Fraction(float(defaults["rho"]))),
-           defaults["btMaxiter"], "true" if defaults["bt"] else "false", defaults["btStartIter"], vlib.lean_rat(Fraction(0.0001)),
-           "true" if defaults["zeroSafe"] else "false"),
+           defaults["btMaxiter"], "true" if defaults["bt"] else "false", defaults["btStartIter"], vlib.lean_rat(Fraction(0.0001))),
         "",
         "/-- the branches of `_solver_helper` (wntr/sim/core.py) and the `except` clause around the scipy nonlinear solvers -/",
         "def helperShape : HelperShape :=",
-        "  { newtonFirst := %s, fsolveByIer := %s, scipySolvers := [%s], scipyCatch := %s, elseRaises := %s }"
-        % ("true" if hshape["newtonFirst"] else "false", "true" if hshape["fsolveByIer"] else "false",
+        "  { newtonFirst := %s, fsolveByIer := %s, fsolveCatch := %s, scipySolvers := [%s], scipyCatch := %s, elseRaises := %s }"
+        % ("true" if hshape["newtonFirst"] else "false", "true" if hshape["fsolveByIer"] else "false", hshape["fsolveCatch"],
            ", ".join('"%s"' % n for n in hshape["scipySolvers"]), hshape["scipyCatch"], "true" if hshape["elseRaises"] else "false"),
         "",
         "end Wntr.Newton.Gen",
@@ -989,6 +999,11 @@ def judge(case, obs, ref):
         if obs["exc"][0] == "UnboundLocalError" and ("outer_iter" in obs["exc"][1] or "iter_bt" in obs["exc"][1]):
             return [("newton-zero-limit-unboundlocal",
                      "run_sim raised UnboundLocalError (%s): NewtonSolver.solve with MAXITER = 0 / BT_MAXITER = 0" % obs["exc"][1])]
+        if (case.get("solver") == "fsolve" or obs["backup"] == "fsolve") and case.get("kind", "").startswith("sp-") \
+                and obs["exc"][0] in ("ValueError", "FloatingPointError"):
+            return [("fsolve-exception-escapes",
+                     "an exception raised inside scipy.optimize.fsolve (or by load_var_values_from_x on its result) escapes from run_sim: %s: %s"
+                     % obs["exc"])]
         if obs["exc"][0] == "ValueError" and "number of constraints and variables" in obs["exc"][1]:
             return [("model-structure-constraints-vs-variables",
                      "run_sim raised ValueError (%s) at a solve instead of reporting a step that cannot be solved" % obs["exc"][1])]
@@ -1080,9 +1095,9 @@ def newton_line(rec):
     o = rec["opts"]
     norms = ",".join("nan" if (v is None or v != v or v in (float("inf"), float("-inf"))) else vlib.frac_str(v) for v in rec["norms"]) or "-"
     lin = "".join("1" if b else "0" for b in rec["lin"]) or "-"
-    return "newton %d %s %s %d %d %d %s %d - %d %s %s" % (
+    return "newton %d %s %s %d %d %d %s %d - %s %s" % (
         o["maxiter"], vlib.frac_str(o["tol"]), vlib.frac_str(o["rho"]), o["bt_maxiter"], 1 if o["bt"] else 0, o["bt_start_iter"],
-        vlib.frac_str(0.0001), 1 if rec["empty"] else 0, 1 if ZERO_SAFE[0] else 0, norms, lin)
+        vlib.frac_str(0.0001), 1 if rec["empty"] else 0, norms, lin)
 
 
 def newton_float_replay(rec):
@@ -1268,7 +1283,6 @@ class C16(Check):
         vlib.write_if_changed(os.path.join(vlib.GEN, "RunLoopShape.lean"), gen_shape_lean(fields, body))
         defaults, nbody = newton_shape_from_source(os.path.join(vlib.REPO, "wntr", "sim", "solvers.py"))
         hshape = helper_shape_from_source(os.path.join(vlib.REPO, "wntr", "sim", "core.py"))
-        ZERO_SAFE[0] = bool(defaults["zeroSafe"])
         vlib.write_if_changed(os.path.join(vlib.GEN, "NewtonShape.lean"), gen_newton_lean(defaults, nbody, hshape))
 
     # -- one group of cases for a spec ------------------------------------------------------
@@ -1348,6 +1362,12 @@ class C16(Check):
                         ref = refs[rk]
                     if exp.endswith("Trials"):
                         ref = None  # the reference run of a trial overflow is the same run: nothing to compare
+                    elif ref is not None and ref["outs"][:max(last_first, 0)] != obs["outs"][:max(last_first, 0)]:
+                        # the real scipy solvers (anderson, ...) do not converge reproducibly from run to run on ill-conditioned
+                        # steps: a reference whose solver did not answer alike on the earlier calls is no reference (statement:
+                        # "a solve' that agrees on the first k-1 calls")
+                        ctx.count("reference_run_not_reproducible")
+                        ref = None
                 verdicts = judge(case, obs, ref)
                 sig = (json.dumps(gen_networks.spec_signature(spec), default=str), json.dumps(spec.get("c16_controls", []), sort_keys=True),
                        json.dumps(sorted(case["plan"].items())), case["backup"], case["conv_err"],
@@ -1468,6 +1488,9 @@ class C16(Check):
                     ctx.count("newton_model_disagreements")
                     broken.append(Broken("correspondence", "NewtonDriver vs NewtonSolver.solve",
                                          "model=%s code=%s\n%s" % (model, real, line[:600])))
+                elif parts[6] != "interp=same":
+                    broken.append(Broken("correspondence", "NewtonDriver interpreter", "the interpretation of the generated solve program differs "
+                                         "from the hand-written solve\n" + ans + "\n" + line[:600]))
                 elif parts[0] == "converged" and parts[5] == "small=no":
                     broken.append(Broken("correspondence", "NewtonDriver small residual", ans + "\n" + line[:600]))
         return failures, broken
